@@ -72,7 +72,7 @@ def _cases(draw, tier):
     layer = draw(st.sampled_from(['api'] * 30 + ['cli', 'cli', 'cond', 'cond']))
     if layer == 'cond':
         return {'kind': 'wf', 'layer': 'cli', 'ast': draw(_EXPR_COND), 'sp': draw(st.sampled_from(['', ' ', ' '])),
-                'form': draw(st.integers(3, 4))}
+                'form': draw(st.sampled_from([3, 4, 8, 8]))}
     if draw(st.integers(0, 59)) == 0:
         # a lone literal in a spelling that only other languages have
         return {'kind': 'tok', 'layer': 'cli', 'tokens': [draw(st.sampled_from(['0b101', '0o17', '1_000', '0x_ff', '0B11', '0O7', '1e3', '0x1p3']))],
@@ -202,6 +202,10 @@ def _run_cond(text, form, want):
     if form == 3:
         lines.append(f'#if {text} == {want}')
         expect = 1
+    elif form == 8:
+        # compared as whole numbers: the truncated value is not at or beyond the next whole number away from zero
+        lines.append(f'#if {text} >= {want + 1}' if want >= 0 else f'#if {text} <= {want - 1}')
+        expect = 2
     else:
         lines.append(f'#if {text}')
         expect = 1 if want != 0 else 2
@@ -309,7 +313,7 @@ def execute(case, ctx):
             got = _run_api(text)
             detail = {'text': text, 'expected': want, 'got': list(got)}
             cmpwant = want
-        elif case['form'] in (3, 4) and not any(c in text for c in '<>=!') and text.strip():
+        elif case['form'] in (3, 4, 8) and layer == 'cli' and 'sp' in case and not any(c in text for c in '<>=!') and text.strip():
             # as an operand of a conditional directive: evaluated by the preprocessor, compared as an integer
             got, src, res = _run_cond(text.strip(), case['form'], want)
             detail = {'text': text, 'expected': want, 'got': list(got), 'source': src, 'run': res.brief()}
